@@ -170,6 +170,8 @@ pub fn plan(property: &str, tier: Tier) -> Option<Plan> {
             jobs.push(g("shapes/binds", "rel", if q { 5 } else { 7 }).armed(&a));
             jobs.push(g("shapes/fanout", "rel", if q { 6 } else { 8 }).armed(&a));
             jobs.push(g("shapes/xp", "rel", if q { 6 } else { 8 }).armed(&a));
+            jobs.push(g("c01/late", "rel", if q { 7 } else { 10 }).armed(&a));
+            jobs.push(g("shapes/diamond", "rel", if q { 6 } else { 9 }).armed(&a));
             if !q {
                 jobs.push(g("c01/grammar3-maps", "rel", 5).armed(&a));
                 jobs.push(g("c01/grammar3-binds", "rel", 5).armed(&a));
@@ -190,8 +192,11 @@ pub fn plan(property: &str, tier: Tier) -> Option<Plan> {
             jobs.push(g("c03/inner", "rel", if q { 4 } else { 6 }).armed(&a));
             jobs.push(g("shapes/fanout", "rel", if q { 6 } else { 8 }).armed(&a));
             jobs.push(g("shapes/xp", "rel", if q { 6 } else { 8 }).armed(&a));
+            jobs.push(g("c01/late", "rel", if q { 6 } else { 9 }).armed(&a));
+            jobs.push(g("shapes/diamond", "rel", if q { 6 } else { 9 }).armed(&a));
+            jobs.push(g("shapes/diamond", "dbg", if q { 5 } else { 8 }).armed(&a));
             jobs.push(g("c01/catalogue", "dbg", if q { 5 } else { 7 }).armed(&a));
-            ("model_checking", mc_rule, vec!["value domain {0,1,2}", "programs of <= 7 nodes", "internal recompute schedules reached through observe / un-observe orders of <= 2-3 observers"], if q { 60 } else { 1500 })
+            ("model_checking", mc_rule, vec!["value domain {0,1,2}", "programs of <= 11 nodes", "internal recompute schedules reached through observe / un-observe orders of <= 2-3 observers"], if q { 60 } else { 1500 })
         }
         "C03" => {
             let a = ["C03"];
@@ -228,6 +233,10 @@ pub fn plan(property: &str, tier: Tier) -> Option<Plan> {
                 jobs.push(g("shapes/fanout", prof, if q { 6 } else { 9 }).armed(&a));
                 jobs.push(g("shapes/xp", prof, if q { 6 } else { 8 }).armed(&a));
                 jobs.push(g("shapes/xp-writes", prof, if q { 5 } else { 7 }).armed(&a));
+                jobs.push(g("c01/late", prof, if q { 6 } else { 9 }).armed(&a));
+                jobs.push(g("shapes/diamond", prof, if q { 5 } else { 8 }).armed(&a));
+                jobs.push(g("c09/self_disallow", prof, if q { 5 } else { 8 }).armed(&a));
+                jobs.push(g("c05/stale", prof, if q { 7 } else { 9 }).armed(&a));
             }
             ("model_checking", mc_rule, vec!["only well-formed histories are generated (no nested stabilise, no cycles, default height limit, one state, closures own no observers)", "both debug-assertion configurations, same bounds"], if q { 60 } else { 1500 })
         }
@@ -245,6 +254,9 @@ pub fn plan(property: &str, tier: Tier) -> Option<Plan> {
             jobs.push(g("c03/inner", "rel", if q { 4 } else { 6 }).armed(&a));
             jobs.push(g("shapes/fanout", "rel", if q { 6 } else { 8 }).armed(&a));
             jobs.push(g("shapes/xp", "rel", if q { 6 } else { 8 }).armed(&a));
+            jobs.push(g("c01/late", "rel", if q { 6 } else { 9 }).armed(&a));
+            jobs.push(g("c05/stale", "rel", if q { 8 } else { 10 }).armed(&a));
+            jobs.push(g("c05/stale", "dbg", if q { 7 } else { 9 }).armed(&a));
             jobs.push(g("c05/clones", "dbg", if q { 5 } else { 7 }).armed(&a));
             ("model_checking", mc_rule, vec!["dependency cone computed syntactically by the harness from the program and the reference's current bind right-hand sides"], if q { 60 } else { 1500 })
         }
@@ -256,6 +268,10 @@ pub fn plan(property: &str, tier: Tier) -> Option<Plan> {
             jobs.push(g("c01/reobserve2", "rel", if q { 8 } else { 10 }).armed(&a));
             jobs.push(g("shapes/binds", "rel", if q { 6 } else { 7 }).armed(&a));
             jobs.push(g("c06/cutoffs", "dbg", if q { 4 } else { 6 }).armed(&a));
+            // a variable with Cutoff::Never written outside stabilise, from node functions (deferred) and from update
+            // handlers: its needed readers must re-run at the next stabilise whatever was written (vars world)
+            jobs.push(JobDef::new("vars", "c08/never", "rel", if q { 7 } else { 9 }).armed(&a));
+            jobs.push(JobDef::new("vars", "c08/never", "dbg", if q { 6 } else { 8 }).armed(&a));
             ("model_checking", mc_rule, vec!["expert nodes excluded (as the property states)", "depend_on and map_ref-over-map_with_old outputs are not judged for exact re-invocation (DESIGN §6 C06)"], if q { 60 } else { 1500 })
         }
         "C07" => {
@@ -290,6 +306,10 @@ pub fn plan(property: &str, tier: Tier) -> Option<Plan> {
             jobs.push(g("c03/nested", "rel", if q { 6 } else { 8 }).armed(&a));
             jobs.push(g("c09/self_unsub", "rel", if q { 6 } else { 9 }).armed(&a));
             jobs.push(g("c09/self_unsub", "dbg", if q { 5 } else { 7 }).armed(&a));
+            for ord in [Some(true), Some(false)] {
+                jobs.push(g("c09/self_disallow", "rel", if q { 7 } else { 9 }).armed(&a).order(ord));
+            }
+            jobs.push(g("c09/self_disallow", "dbg", if q { 6 } else { 8 }).armed(&a));
             jobs.push(g("c07/reads", "rel", if q { 5 } else { 7 }).armed(&a));
             let mut j = g("c09/subs", "dbg", if q { 5 } else { 7 }).armed(&a);
             j.split_first = true;
@@ -308,6 +328,7 @@ pub fn plan(property: &str, tier: Tier) -> Option<Plan> {
             j.split_first = true;
             jobs.push(j);
             jobs.push(g("c10/differential", "rel", if q { 8 } else { 10 }).armed(&a));
+            jobs.push(g("c09/self_disallow", "rel", if q { 6 } else { 8 }).armed(&a));
             let mut j = g("c09/subs", "dbg", if q { 5 } else { 7 }).armed(&a);
             j.split_first = true;
             jobs.push(j);
@@ -333,6 +354,10 @@ pub fn plan(property: &str, tier: Tier) -> Option<Plan> {
             jobs.push(g("shapes/fanout", "rel", if q { 6 } else { 8 }).armed(&a));
             jobs.push(g("shapes/fanout", "dbg", if q { 5 } else { 7 }).armed(&a));
             jobs.push(g("shapes/xp", "rel", if q { 6 } else { 8 }).armed(&a));
+            jobs.push(g("c01/late", "rel", if q { 6 } else { 9 }).armed(&a));
+            jobs.push(g("shapes/diamond", "rel", if q { 5 } else { 8 }).armed(&a));
+            jobs.push(g("c05/stale", "rel", if q { 7 } else { 9 }).armed(&a));
+            jobs.push(g("c09/self_disallow", "rel", if q { 5 } else { 7 }).armed(&a));
             // the same audit after every action of the expert / incremental-map / variable worlds
             jobs.push(JobDef::new("expert", "all", "rel", if q { 7 } else { 9 }).armed(&a));
             jobs.push(JobDef::new("expert", "all", "dbg", if q { 6 } else { 8 }).armed(&a));
@@ -355,7 +380,9 @@ pub fn plan(property: &str, tier: Tier) -> Option<Plan> {
                 jobs.push(w("c08/handler", "dbg", 5));
                 jobs.push(w("c08/selffeed", "dbg", 5));
                 jobs.push(w("c08/dropped", "dbg", 6));
+                jobs.push(w("c08/never", "rel", 7));
             } else {
+                jobs.push(w("c08/never", "rel", 9));
                 jobs.push(w("c08/outside-full", "rel", 8));
                 jobs.push(w("c08/node", "rel", 7));
                 jobs.push(w("c08/handler", "rel", 7));
@@ -437,6 +464,7 @@ pub fn plan(property: &str, tier: Tier) -> Option<Plan> {
                 if q {
                     jobs.push(pk("c16/all-k2", "rel", 5));
                     jobs.push(pk("c16/all-k3", "rel", 3));
+                    jobs.push(pk("c16/switch-k1", "rel", 7));
                 } else {
                     jobs.push(pk("c16/all-k2", "rel", 7));
                     jobs.push(pk("c16/all-k3", "rel", 5));
@@ -454,7 +482,12 @@ pub fn plan(property: &str, tier: Tier) -> Option<Plan> {
                 jobs.push(w("sum", "dbg", 7));
                 jobs.push(w("join", "dbg", 8));
                 jobs.push(w("bind", "dbg", 8));
+                // the driver node keeps adding / removing dependencies while the expert node is unobserved
+                jobs.push(w("driver", "rel", 8));
+                jobs.push(w("driver", "dbg", 7));
             } else {
+                jobs.push(w("driver", "rel", 10));
+                jobs.push(w("driver", "dbg", 9));
                 jobs.push(w("sum", "rel", 10));
                 jobs.push(w("join", "rel", 11));
                 jobs.push(w("bind", "rel", 11));
@@ -475,7 +508,13 @@ pub fn plan(property: &str, tier: Tier) -> Option<Plan> {
                 jobs.push(pk("c16/all-k3", "rel", 4));
                 jobs.push(pk("c16/all-k2", "dbg", 5));
                 jobs.push(pk("c16/shared-pinned-k1", "rel", 8));
+                // per-key function with a bind on the outer variable that decides whether the key's input is read
+                jobs.push(pk("c16/switch-k1", "rel", 8));
+                jobs.push(pk("c16/switch-k1", "dbg", 7));
             } else {
+                jobs.push(pk("c16/switch-k1", "rel", 10));
+                jobs.push(pk("c16/switch-k2", "rel", 7));
+                jobs.push(pk("c16/switch-k1", "dbg", 9));
                 jobs.push(pk("c16/all-k2", "rel", 8));
                 jobs.push(pk("c16/all-k3", "rel", 6));
                 jobs.push(pk("c16/all-k2", "dbg", 7));
